@@ -261,6 +261,8 @@ def case_sequence(R: Runner, inp: dict[str, Any]) -> None:
             R.law(later[0][0], "same-result-after-earlier-applications", False, "render-fails",
                   {"earlier": used[:6], "n_earlier": len(used), "got": res.brief()})
         return
+    if inp["tseed"] % 2 == 0:
+        inheritance_check(R, x)
     outs = res.value.split(SEP)[1:]
     for (owner, src), ref, out in zip(later, refs, outs):
         try:
@@ -271,3 +273,113 @@ def case_sequence(R: Runner, inp: dict[str, Any]) -> None:
             continue
         _same(R, owner, "same-result-after-earlier-applications", got, ref, "",
               {"later": src, "earlier": used[:6], "n_earlier": len(used)})
+
+
+# ---------------------------------------------------------------------------
+# the same applications inside template inheritance
+# ---------------------------------------------------------------------------
+#
+# A filter application means the same in an overriding {% block %} (also a nested block and
+# the parent's block reached through block.super) as in a flat template: lambda bodies see the
+# block-local variables (loop variable, assign, capture), also when the same filter names were
+# already used by the base template or an earlier block.
+
+BASE_PRELUDE = (
+    "{% assign f_ = x | where: 'id' %}{% assign g_ = x | find: 'id', 1 %}{{ x | has: 'id' }}"
+    "{{ x | map: 'id' | join: ',' }}{{ x | sort: 'id' | size }}{{ x | uniq: 'id' | size }}"
+    "{{ x | find_index: 'id', 1 }}{{ x | reject: 'id' | size }}{{ x | compact: 'id' | size }}{{ x | sum: 'id' }}"
+    "{{ x | where: q => q.id == 1 | size }}{{ x | has: q => q.id == 0 }}")
+INH_OWNERS: list[str] = []
+
+
+def _frag(owner: str, body: str) -> str:
+    INH_OWNERS.append(owner)
+    return SEP + body
+
+
+F_BASE_BLOCK = "{% for t in tvs %}" + _frag("where", "{{ x | where: i => i.s == t | map: 'id' | json }}") + "{% endfor %}"
+F_MAIN = ("{% assign k = 's' %}{% for t in tvs %}"
+          + _frag("where", "{{ x | where: k, t | map: 'id' | json }}")
+          + _frag("where", "{{ x | where: p => p.s == t | map: 'id' | json }}")
+          + _frag("reject", "{{ x | reject: p => p.s == t | map: 'id' | json }}")
+          + _frag("find", "{% assign r = x | find: p => p.s == t %}{{ r.id | json }}")
+          + _frag("find_index", "{{ x | find_index: p => p.s == t | json }}")
+          + _frag("has", "{{ x | has: p => p.s == t | json }}")
+          + _frag("map", "{{ x | map: p => p[k] | json }}")
+          + _frag("sort", "{{ x | sort: p => p[k] | map: 'id' | json }}")
+          + _frag("uniq", "{{ x | uniq: p => p[k] | map: 'id' | json }}")
+          + _frag("compact", "{{ x | compact: p => p[k] | map: 'id' | json }}")
+          + _frag("sum", "{% assign kk = 'id' %}{{ x | sum: p => p[kk] | json }}")
+          + "{% endfor %}")
+F_INNER = ("{% capture c %}{{ last_s }}{% endcapture %}"
+           + _frag("where", "{{ x | where: i => i.s == c | map: 'id' | json }}")
+           + _frag("has", "{{ x | has: i => i.s == c | json }}")
+           + _frag("find", "{% assign r = x | find: (i, n) => i.s == c %}{{ r.id | json }}"))
+F_OTHER = ("{% assign t2 = first_s %}"
+           + _frag("find_index", "{{ x | find_index: i => i.s == t2 | json }}")
+           + _frag("where", "{{ x | where: i => i.s != t2 | map: 'id' | json }}"))
+INH_TEMPLATES = {
+    "base": BASE_PRELUDE + "|{% block main %}" + F_BASE_BLOCK + "{% endblock %}|{% block other %}{% endblock %}",
+    "child": ("{% extends 'base' %}{% block main %}" + F_MAIN + "{% block inner %}" + F_INNER + "{% endblock %}"
+              "[{{ block.super }}]{% endblock %}{% block other %}" + F_OTHER + "{% endblock %}"),
+    "flat": BASE_PRELUDE + "|" + F_MAIN + F_INNER + "[" + F_BASE_BLOCK + "]|" + F_OTHER,
+}
+
+
+def inheritance_check(R: Runner, x: list[dict[str, Any]]) -> None:
+    eng = R.eng
+    env = getattr(eng, "_c19_inh_env", None)
+    if env is None:
+        from liquid2 import DictLoader
+        from liquid2 import Environment
+
+        env = Environment(loader=DictLoader(INH_TEMPLATES))
+        eng._c19_inh_env = env  # type: ignore[attr-defined]
+    data = {"x": x, "first_s": x[0]["s"], "last_s": x[-1]["s"], "tvs": [x[0]["s"], x[-1]["s"], "no such value"]}
+    outs = []
+    for name in ("flat", "child"):
+        try:
+            outs.append(Res("ok", env.get_template(name).render(**data)))
+        except eng.LiquidError as e:
+            outs.append(Res("err", None, type(e).__name__, str(e)[:200]))
+        except Exception as e:  # noqa: BLE001
+            outs.append(Res("foreign", None, type(e).__name__, str(e)[:200]))
+    flat, child = outs
+    if R.recording:
+        R.ctx.count("inheritance_renders")
+    R.law("where", "no-foreign-exception", child.kind != "foreign", child.exc + ":inherited-block", child.brief())
+    if child.kind == "foreign" or not flat.ok:
+        return
+    if not child.ok:
+        R.law("where", "same-result-inside-inherited-block", False, "render-fails", {"got": child.brief()})
+        return
+    a, b = flat.value.split(SEP), child.value.split(SEP)
+    if len(a) != len(b):
+        R.law("where", "same-result-inside-inherited-block", False, "different-structure", {"flat": flat.value[:300], "child": child.value[:300]})
+        return
+    bad = [(i, u, v) for i, (u, v) in enumerate(zip(a, b)) if u != v]
+    # attribute to the filter named in the first differing segment
+    owner = "where"
+    if bad:
+        owner = _owner_of_segment(a, bad[0][0])
+    for f in sorted(set(INH_OWNERS)):
+        ok = not (bad and owner == f)
+        if R.recording:
+            R.ctx.count("inheritance_comparisons")
+        R.law(f, "same-result-inside-inherited-block", ok, "",
+              None if ok else {"segment": bad[0][0], "flat": bad[0][1][:200], "in_block": bad[0][2][:200]})
+
+
+def _segment_owners() -> list[str]:
+    """Owner filter of every SEP-separated segment of the flat rendering, in order (loops over
+    three values repeat their fragments)."""
+    main = [o for o in INH_OWNERS[1:12]]
+    inner = INH_OWNERS[12:15]
+    base = [INH_OWNERS[0]]
+    other = INH_OWNERS[15:17]
+    return ["where"] + main * 3 + inner + base * 3 + other
+
+
+def _owner_of_segment(_a: list[str], idx: int) -> str:
+    owners = _segment_owners()
+    return owners[idx] if 0 <= idx < len(owners) else "where"
